@@ -550,12 +550,8 @@ def rule_point_numbering(eng, rep, A, rule="C02-5.point-numbering"):
 
 
 def _in_loop(cfg, head, n):
-    """n is in the body of the loop headed by head (can reach head again without leaving through the loop exit)."""
-    if n == head:
-        return True
-    body_entry = [m for m, e in cfg.succ(head, with_exc=False) if e["label"] in ("iter", None, True)]
-    # n in loop  <=>  head reaches n and n reaches head
-    return cfg.path_avoiding(head, n, []) is not None and cfg.path_avoiding(n, head, []) is not None
+    """n belongs to the natural loop headed by head."""
+    return n in cfg.loop_nodes(head)
 
 
 # --------------------------------------------------------------------------------------------- C02-6
